@@ -13,6 +13,19 @@ CFG = {"quick": 260, "thorough": 6000, "persist": ["json", "pickle"], "lengths":
        "bias": {"save": 2.5, "restart": 3, "idreq": 3}, "malformed": 0.1}
 
 
+def _stop_restart(version, hist):
+    return [("X",), ("R",)]
+
+
+def _save_then_same_then_stop(version, hist):
+    # a periodic save, the last op once more (a change carried by the same kind of message), then stop + restart
+    last = [op for op in hist if op[0] == "L"][-1:]
+    return [("K",)] + last + [("X",), ("R",)]
+
+
+CFG["search_suffixes"] = [_stop_restart, _save_then_same_then_stop]
+
+
 def relevant(hist, obs):
     return any(o[0] == "R" for o in hist)
 
